@@ -332,8 +332,8 @@ def d5_marker_key(ctx, rule_id="D5"):
 
 
 def run(ctx):
-    d1_deletion_guarded(ctx)
-    d2_typestate(ctx)
-    d3_unlink_tolerant(ctx)
-    d4_skip_paths(ctx)
-    d5_marker_key(ctx)
+    ctx.run(d1_deletion_guarded)
+    ctx.run(d2_typestate)
+    ctx.run(d3_unlink_tolerant)
+    ctx.run(d4_skip_paths)
+    ctx.run(d5_marker_key)
